@@ -1,0 +1,33 @@
+//go:build verif
+
+package subscriber
+
+import "sync"
+
+// Verification hooks (build tag "verif" only). Add-only: nothing here changes the
+// behaviour of the package unless a test installs a gate.
+
+// verifGates maps a *Manager to the gate function installed for it.
+var verifGates sync.Map
+
+// VerifSetGate installs (or, with nil, removes) a gate for m. The gate is called with the
+// name of a point at which the calling goroutine holds no lock of the manager; it may block
+// to let a test decide the interleaving of concurrent calls.
+func VerifSetGate(m *Manager, gate func(point string)) {
+	if gate == nil {
+		verifGates.Delete(m)
+		return
+	}
+	verifGates.Store(m, gate)
+}
+
+func verifGate(m *Manager, point string) {
+	if g, ok := verifGates.Load(m); ok {
+		g.(func(string))(point)
+	}
+}
+
+// VerifCleanupExpired runs one iteration of the cleanup loop.
+func (m *Manager) VerifCleanupExpired() {
+	m.cleanupExpiredSessions()
+}
